@@ -71,3 +71,7 @@ Lemma journal_on_disk : check_journal_on_disk = true.
 Proof. vm_compute; reflexivity. Qed.
 Lemma synchronous_on : check_synchronous_on = true.
 Proof. vm_compute; reflexivity. Qed.
+
+(* ------------------------------------------------------------------ C02: a height is recorded once *)
+Lemma height_mark_plain_insert : check_height_mark_plain_insert = true.
+Proof. vm_compute; reflexivity. Qed.
